@@ -211,5 +211,17 @@ def run(tier, seed, repo, focus=None):
                         res.count(key=repr(scn), nontrivial=n > ub, check="kdq-tree invariants")
                         if msg:
                             res.violation("kdq-tree: " + msg, REPLAY % dict(verif=VERIF, scn=scn), known)
+    # randomly drawn sizes / dimensions / stop parameters, incl. larger point sets and coarse cut-point bounds
+    prng = np.random.RandomState(seed + 808)
+    for r in range(12 if quick else 150):
+        scn = {"seed": seed + r, "n": int(prng.choice([30, 60, 150, 400])), "m": int(prng.randint(1, 5)), "ub": int(prng.randint(1, 30)),
+               "kind": str(prng.choice(["grid", "dup", "cont", "blocky"])), "lb": float(prng.choice([2e-10, 0.01, 0.1, 0.25, 0.5]))}
+        try:
+            msg = check(scn)
+        except Exception as e:
+            msg = "%s: %s" % (type(e).__name__, e)
+        res.count(key=repr(scn), nontrivial=scn["n"] > scn["ub"], check="kdq-tree invariants (random parameters)")
+        if msg:
+            res.violation("kdq-tree: " + msg, REPLAY % dict(verif=VERIF, scn=scn), known)
     res.sample({"check": "kdq-tree invariants", "scenario": {"n": 9, "m": 2, "ub": 2, "kind": "grid"}})
     return res.finish()
